@@ -14,7 +14,7 @@ def native_ob(name, fsi, sd, tier, extra):
     return Ob(name, 'C01_native.c', ['src/opus.c'], ['-DFSI=%d' % fsi, '-DSD=%d' % sd, '-DPL=8', '-DMAXC=4'] + extra, unwind=1,
               replace=['opus_decode_frame_REAL:stub_decode_frame'],
               unwindset=['harness:9', 'opus_decode_native:2', 'opus_decode_native@pcm_count < frame_size:50', 'opus_decode_native@i<count:6', 'rec:opus_decode_native:3', 'opus_packet_parse_impl:9', 'rfc_parse:9'],
-              functions=['opus_decode_native', 'opus_packet_parse_impl'], budget=1500, tier=tier, replay=False, mem_gb=16,
+              functions=['opus_decode_native', 'opus_packet_parse_impl'], budget=3000, tier=tier, replay=False, mem_gb=16,
               stubs=['opus_decode_frame: synth stub (asserts its output region lies inside the caller buffer, returns the durations the real function may return, logs calls)'],
               bounds='Fs=%d, %s framing; any decoder state satisfying validate_opus_decoder; any 8-byte packet with <= 4 frames, any len -1..8, NULL or not; any frame_size 1..120 ms; decode_fec -1..2' % (FSN[fsi], 'self-delimited' if sd else 'standard'))
 
@@ -36,7 +36,7 @@ def obligations():
         F20 = FSN[fsi] // 50
         L.append(Ob('H3.frame_glue.fs%d' % FSN[fsi], 'C01_frame.c', ['celt/entdec.c', 'celt/entcode.c'], ['-DFSI=%d' % fsi, '-DPL=6'], unwind=1,
                     replace=['smooth_fade_REAL:stub_fade'], memwords=F20 // 2 + 2,
-                    unwindset=['harness:7', 'opus_decode_frame:%d' % (6 * F20 * 2 + 2), 'opus_decode_frame@decoded_samples < frame_size:5', 'opus_decode_frame@audiosize > 0:8',
+                    unwindset=['harness:7', 'opus_decode_frame:%d' % (F20 * 2 + 2), 'opus_decode_frame@decoded_samples < frame_size:5', 'opus_decode_frame@audiosize > 0:8',
                                'opus_decode_frame@c<st->channels:3', 'opus_decode_frame@i<F2_5:%d' % (F20 // 8 + 1), 'rec:opus_decode_frame:3', 'ec_dec_init:5', 'ec_dec_normalize:5', 'ec_dec_uint:3', 'ec_dec_bits:5'],
                     functions=['opus_decode_frame', 'ec_dec_init'], budget=1500, tier=tier, replay=False, mem_gb=16,
                     stubs=['silk_Decode, celt_decode_with_ec(_dred), smooth_fade: synth stubs touching exactly the region their contract lets them write', 'celt_decoder_ctl: argument-checking stub', 'silk_ResetDecoder: no-op'],
